@@ -42,11 +42,11 @@ var propOracles = map[string]Oracles{
 	"C08": oMap | oIter | oExt | oExact,
 	"C09": oMap | oIter | oExt | oRange | oExact,
 	"C11": oShape,
-	"C12": oMap | oIter | oSize,
+	"C12": oMap | oIter | oSize | oExt | oRange | oPrefix,
 	"C13": oBuf,
 	"C14": oAbandon,
 	"C15": oDigest,
-	"C16": oMap | oIter | oRange | oPrefix | oExt | oSize,
+	"C16": oMap | oIter | oRange | oPrefix | oExt | oSize | oAbandon,
 	"C18": oVal | oMap | oIter,
 }
 
